@@ -11,6 +11,10 @@
 (*     parsed WITH copying reads exactly as before;                        *)
 (*   - an edit applied to the original never shows in a clone taken        *)
 (*     earlier, and vice versa.                                            *)
+(* "For every pair of option settings": the object may be a reused one     *)
+(* whose previous call ran with either option (prev), and string copying   *)
+(* may be requested explicitly or be the default (how); neither changes    *)
+(* what the result depends on.                                             *)
 (* State: the abstract documents the original and the clone must expose,   *)
 (* and the history of operations (replayed into the real API, every read   *)
 (* API compared after every step).                                         *)
@@ -19,8 +23,10 @@ EXTENDS Marshal, TLC
 
 CONSTANTS Docs0, MaxOps, EditOps      \* EditOps: set of <<kind, payload>> as in Edit.tla (set operations) plus <<"del", 0>>
 
-VARIABLES docs0, text0, copy, hist, docsO, docsC, cloned, scribbled
-vars == <<docs0, text0, copy, hist, docsO, docsC, cloned, scribbled>>
+VARIABLES docs0, text0, copy, hist, docsO, docsC, cloned, scribbled,
+          prev,     \* "fresh": no reuse; "copy" / "nocopy": the object passed as `reuse` was last used with that option
+          how       \* "explicit": WithCopyStrings(copy) is passed; "default": no option (only when copy = TRUE)
+vars == <<docs0, text0, copy, hist, docsO, docsC, cloned, scribbled, prev, how>>
 
 RECURSIVE PathsOf(_)
 PathsOf(v) ==
@@ -51,6 +57,7 @@ NewDoc(ds, p, k, x) ==
 
 Init == /\ docs0 \in Docs0 /\ text0 = SourceText(docs0) /\ copy \in BOOLEAN
         /\ hist = <<>> /\ docsO = docs0 /\ docsC = <<>> /\ cloned = FALSE /\ scribbled = FALSE
+        /\ prev \in {"fresh", "copy", "nocopy"} /\ how \in {"explicit", "default"} /\ (how = "default" => copy)
 
 Scribble == /\ ~scribbled /\ copy          \* only claimed when strings were copied
             /\ scribbled' = TRUE /\ hist' = Append(hist, [op |-> "scribble"])
@@ -74,6 +81,7 @@ Next == /\ Len(hist) < MaxOps
         /\ \/ Scribble \/ Clone
            \/ \E p \in AllPaths(docsO), e \in EditOps : EditO(p, e)
            \/ (cloned /\ \E p \in AllPaths(docsC), e \in EditOps : EditC(p, e))
+        /\ UNCHANGED <<prev, how>>
 Spec == Init /\ [][Next]_vars
 
 \* M: the two documents only ever change through their own edits
